@@ -125,7 +125,7 @@ def nfa_cases(draw, tier):
 
 @st.composite
 def regexp_cases(draw, tier):
-    syms = draw(st.sampled_from([["a"], ["a", "b"]]))
+    syms = draw(st.sampled_from([["a"], ["a", "b"], ["0", "1"], ["1", "a"]]))     # symbols named 0/1 are distinct from the constants
     return {"re": draw(GR.trees(syms, max_leaves=7)), "n": draw(bounds)}
 
 
